@@ -298,6 +298,16 @@ def _edge_fill(name, opts, out, seen, lengths):
         # one base number per shape: length and which positions hold digits / upper / lower case letters
         lengths.setdefault((len(v), ''.join('d' if c.isdigit() else 'u' if c.isupper() else 'l' if c.islower() else 'o' for c in v)), v)
     m = core.number_modules()[name]
+    # documented alternative final characters (es.cif: digit or letter check): each accepted one is a shape of its own
+    for v in list(lengths.values())[:6]:
+        for c in string.digits + string.ascii_uppercase:
+            w = v[:-1] + c
+            if c != v[-1] and _ok(m, w, opts):
+                o = core.out(m.validate, w, **opts)
+                if o[0] == 'ok' and isinstance(o[1], str) and o[1] not in seen:
+                    seen.add(o[1])
+                    out.append(o[1])
+                    lengths.setdefault((len(o[1]), ''.join('d' if c.isdigit() else 'u' if c.isupper() else 'l' if c.islower() else 'o' for c in o[1])), o[1])
     for v in list(lengths.values())[:6]:
         if len(v) > 40:
             continue
